@@ -223,6 +223,9 @@ pub trait DstObj {
     fn view(&self) -> Result<(usize, usize), String>;
     fn addr(&self) -> usize;
     fn size_of_val(&self) -> usize;
+    /// the fat pointer's metadata: the element count of the typed view's
+    /// dynamically sized tail
+    fn meta(&self) -> usize;
     /// `clone_dyn` of the real crate, inside the allocator scope.
     fn clone_dyn(&self) -> Box<dyn DstObj>;
 }
@@ -239,6 +242,9 @@ impl<T: MaybeDynSized<Metadata = usize> + ?Sized + 'static> DstObj for Box<T> {
     }
     fn size_of_val(&self) -> usize {
         std::mem::size_of_val::<T>(self)
+    }
+    fn meta(&self) -> usize {
+        ptr_meta::metadata::<T>(&**self as *const T)
     }
     fn clone_dyn(&self) -> Box<dyn DstObj> {
         let c: Box<T> = {
@@ -526,6 +532,18 @@ impl Interp {
         if let Ok((vp, vl)) = obj.view() {
             if vp != addr || vl != obj.size_of_val() {
                 self.viol("byte-view", k, format!("{what}: as_bytes() covers {vl} bytes at +{} of an object of {} bytes", vp.wrapping_sub(addr) as isize, obj.size_of_val()));
+            }
+        }
+        // the typed view: the fat pointer's element count is what the kind's
+        // `dst_len` rule gives for exactly this content — not for the content
+        // plus its alignment padding (size_of_val cannot tell the two apart)
+        if total >= kind.header_len() && kind.content_ok(total - kind.header_len()) {
+            let (min, div) = kind.rule();
+            let want = (total - kind.header_len() - min) / div;
+            let got = obj.meta();
+            if got != want {
+                let clause = if what.starts_with("clone") { "clone-metadata" } else { "metadata" };
+                self.viol(clause, k, format!("{what}: the typed view has {got} trailing elements, expected {want} for {} content bytes", total - kind.header_len()));
             }
         }
         let sov = obj.size_of_val();
